@@ -44,9 +44,10 @@ type World struct {
 	LoopExit  func() // called by the loop task when it ends
 	Violation func(oracle, key, detail string)
 
-	// C10: receive-buffer discipline
+	// C10: receive-buffer discipline and transcript
 	SharedBuf bool
 	Scribble  bool
+	Tx        func(kind, line string)
 
 	Observations int
 	ParseErrs    int
@@ -259,6 +260,10 @@ func (w *World) Drain() []packet.Notification {
 				return out
 			}
 			out = append(out, n)
+			if w.Tx != nil {
+				w.Tx("notification", fmt.Sprintf("%x %s online=%v router=%v dhcp=%q mdns=%q ssdp=%q llmnr=%q nbns=%q", []byte(n.Addr.MAC), n.Addr.IP, n.Online, n.IsRouter,
+					n.DHCP4Name.Name, n.MDNSName.Name, n.SSDPName.Name, n.LLMNRName.Name, n.NBNSName.Name))
+			}
 		default:
 			return out
 		}
@@ -276,6 +281,9 @@ func (w *World) PollOut() []Out {
 		}
 		o := Out{OutFrame: f, F: refdec.Decode(f.Data)}
 		w.outSeen++
+		if w.Tx != nil {
+			w.Tx("frame", fmt.Sprintf("%x", f.Data))
+		}
 		w.wireInvariant(o)
 		out = append(out, o)
 	}
